@@ -38,7 +38,8 @@ func coreState() [][]string {
 		{"SET", "cnrK1", "cnrIa", "FIELD", "cnrF", "77310077", "FIELD", "cnrSECRETfield", "5", "POINT", "33.77310077", "-115.77310077"},
 		{"SET", "cnrK1", "cnrIb", "FIELD", "cnrG", "12", "EX", "500000", "POINT", "33.5", "-115.5"},
 		{"SET", "cnrK1", "cnrIc", "OBJECT", `{"type":"Polygon","coordinates":[[[-115.8,33.4],[-115.4,33.4],[-115.4,33.8],[-115.8,33.8],[-115.8,33.4]]]}`},
-		{"SET", "cnrK1", "cnrSECRETid", "POINT", "33.6", "-115.6"},
+		// no generated command names this id, so drawn extras can never remove these canaries
+		{"SET", "cnrK1", "cnrSECRETid", "FIELD", "cnrSECRETfield2", "77310077", "POINT", "33.6", "-115.6"},
 		{"SET", "cnrK2", "cnrIa", "FIELD", "cnrF", "3", "OBJECT", `{"type":"Feature","geometry":{"type":"Point","coordinates":[-115.77310077,33.77310077]},"properties":{"name":"cnrSECRETname","a":{"b":1}}}`},
 		{"SET", "cnrK2", "cnrIb", "BOUNDS", "33.1", "-115.9", "33.3", "-115.7"},
 		{"SET", "cnrK3", "cnrIa", "STRING", "cnrSECRETstring"},
